@@ -21,22 +21,39 @@ Proof.
   unfold trG, nsign, NoSign. induction 1 as [|[s c] tr H _ IH]; [reflexivity|]. cbn in *. rewrite H. exact IH.
 Qed.
 
+(* the Commit the node built at its first signature request of the history: a ghost of the trace *)
+Fixpoint signed_commit (g : tr_t) : option payload :=
+  match g with
+  | [] => None
+  | (s, c) :: r => match c with
+                   | CSign h => Some (mk_payload s (B0 (BCommit (mkSig (MyKey s) h))))
+                   | _ => signed_commit r end
+  end.
+Lemma signed_commit_none g : nsign g = 0%nat -> signed_commit g = None.
+Proof. induction g as [|[s c] r IH]; [reflexivity|]. destruct c; cbn; try exact IH. discriminate. Qed.
+Lemma signed_commit_app g tr : nsign tr = 0%nat -> signed_commit (g ++ tr) = signed_commit g.
+Proof.
+  intros H. induction g as [|[s c] r IH]; [apply signed_commit_none; exact H|]. destruct c; cbn; try exact IH. reflexivity.
+Qed.
+Lemma signed_commit_first g s h r : nsign g = 0%nat -> signed_commit (g ++ (s, CSign h) :: r) = Some (mk_payload s (B0 (BCommit (mkSig (MyKey s) h)))).
+Proof. induction g as [|[s' c] g' IH]; [reflexivity|]. destruct c; cbn; try exact IH. discriminate. Qed.
+
 Definition own (mi : Z) (s : nstate) : option payload := slot (CommitPayloads s) mi.
-Record Sg (mi : Z) (k : nat) (s : nstate) : Prop := {
+Record Sg (mi : Z) (k : nat) (oc : option payload) (s : nstate) : Prop := {
   o1 : own mi s = None -> k = 0%nat;
-  o2 : k <> 0%nat -> exists c b, own mi s = Some c /\ p_idx c = mi /\ p_view c = ViewNumber s /\ sg_key (commit_sig c) = MyKey s /\
+  o2 : k <> 0%nat -> exists c b, oc = Some c /\ own mi s = Some c /\ p_idx c = mi /\ p_view c = ViewNumber s /\ sg_key (commit_sig c) = MyKey s /\
          header s = Some b /\ sg_hash (commit_sig c) = block_hash b;
   o4 : (k <= 1)%nat }.
-Definition I3 (vs : list key) (mi : Z) (k : nat) (s : nstate) : Prop :=
+Definition I3 (vs : list key) (mi : Z) (k : nat) (oc : option payload) (s : nstate) : Prop :=
   Validators s = vs /\ MyIndex s = mi /\ 0 <= ViewNumber s /\ (0 <= mi -> nth_chk vs (Z.to_nat mi) = Some (MyKey s)) /\
-  (zlen vs <= 65536 -> Sg mi k s).
-Definition I3v (vs : list key) (mi vn : Z) (k : nat) (s : nstate) : Prop := I3 vs mi k s /\ ViewNumber s = vn.
+  (zlen vs <= 65536 -> Sg mi k oc s).
+Definition I3v (vs : list key) (mi vn : Z) (k : nat) (oc : option payload) (s : nstate) : Prop := I3 vs mi k oc s /\ ViewNumber s = vn.
 
 (* what the invariant reads *)
 Definition Same3 (a b : nstate) : Prop :=
   Validators b = Validators a /\ MyIndex b = MyIndex a /\ ViewNumber b = ViewNumber a /\ MyKey b = MyKey a /\
   CommitPayloads b = CommitPayloads a /\ header b = header a.
-Lemma i3_same vs mi k a b : Same3 a b -> I3 vs mi k a -> I3 vs mi k b.
+Lemma i3_same vs mi k oc a b : Same3 a b -> I3 vs mi k oc a -> I3 vs mi k oc b.
 Proof.
   intros (E1 & E2 & E3 & E4 & E5 & E6) (A1 & A2 & A3 & A4 & A5). unfold I3. rewrite E1, E2, ?E3, E4.
   split; [exact A1|split; [exact A2|split; [exact A3|split; [exact A4|]]]]. intros Hs. destruct (A5 Hs) as [P1 P2 P4].
@@ -45,7 +62,7 @@ Qed.
 (* nothing signed yet: the own slot and the header are free *)
 Definition Same3z (a b : nstate) : Prop :=
   Validators b = Validators a /\ MyIndex b = MyIndex a /\ ViewNumber b = ViewNumber a /\ MyKey b = MyKey a.
-Lemma i3_zero vs mi a b : Same3z a b -> I3 vs mi 0 a -> I3 vs mi 0 b.
+Lemma i3_zero vs mi oc a b : Same3z a b -> I3 vs mi 0 oc a -> I3 vs mi 0 oc b.
 Proof.
   intros (E1 & E2 & E3 & E4) (A1 & A2 & A3 & A4 & A5). unfold I3. rewrite E1, E2, ?E3, E4.
   split; [exact A1|split; [exact A2|split; [exact A3|split; [exact A4|]]]]. intros _.
@@ -55,22 +72,22 @@ Qed.
 (* ---------------- level 0: functions that ask for no signature ----------------
    the usual invariant judgement, with the view frozen as a parameter and a switch: with the switch off the invariant is
    trivial, which gives the frame facts of a function when the environment condition KS has already failed *)
-Definition I3s (on : bool) (vs : list key) (mi vn : Z) (k : nat) (s : nstate) : Prop := if on then I3v vs mi vn k s else True.
-Notation k3 x := (forall on vs mi vn k, kp (I3s on vs mi vn k) NoSign x).
+Definition I3s (on : bool) (vs : list key) (mi vn : Z) (k : nat) (oc : option payload) (s : nstate) : Prop := if on then I3v vs mi vn k oc s else True.
+Notation k3 x := (forall on vs mi vn k oc, kp (I3s on vs mi vn k oc) NoSign x).
 Ltac leaf3 :=
   idtac; match goal with
-  | H : I3s ?on _ _ _ _ ?s |- I3s _ _ _ _ _ _ =>
+  | H : I3s ?on _ _ _ _ _ ?s |- I3s _ _ _ _ _ _ _ =>
       destruct on; [|exact I];
       let HI := fresh in let HV := fresh in destruct H as [HI HV];
       repeat match goal with |- context[if ?b then _ else _] => destruct b end;
-      (split; [apply (i3_same _ _ _ s); [unfold Same3; cbn; repeat split; reflexivity|exact HI]|exact HV])
+      (split; [apply (i3_same _ _ _ _ s); [unfold Same3; cbn; repeat split; reflexivity|exact HI]|exact HV])
   | H : _ = Some _ |- NoSign _ ?c => destruct c; try reflexivity; cbn in H; discriminate H
   end.
-Ltac k3_go := let on := fresh "on" in let vs := fresh "vs" in let mi := fresh "mi" in let vn := fresh "vn" in let k := fresh "k" in
-  intros on vs mi vn k; kp_go leaf3.
+Ltac k3_go := let on := fresh "on" in let vs := fresh "vs" in let mi := fresh "mi" in let vn := fresh "vn" in let k := fresh "k" in let oc := fresh "oc" in
+  intros on vs mi vn k oc; kp_go leaf3.
 
 (* ---------------- level 1: the judgement over the history so far ---------------- *)
-Definition I3g (vs : list key) (mi : Z) (g : tr_t) (s : nstate) : Prop := KS mi g -> I3 vs mi (nsign g) s.
+Definition I3g (vs : list key) (mi : Z) (g : tr_t) (s : nstate) : Prop := KS mi g -> I3 vs mi (nsign g) (signed_commit g) s.
 Definition kq {A} (x : M A) : Prop := forall vs mi g0 s0, I3g vs mi g0 s0 -> hx s0 x (fun _ s tr => I3g vs mi (g0 ++ tr) s).
 
 Lemma KS_dec mi g : {KS mi g} + {~ KS mi g}.
@@ -98,9 +115,9 @@ Proof. intros Hf. induction l as [|a l IH]; cbn [forM]; [apply kq_ret|]. apply k
 Lemma kq_of_k3 {A} (x : M A) : k3 x -> kq x.
 Proof.
   intros H vs mi g0 s0 H0. destruct (KS_dec mi g0) as [Hk|Hk].
-  - eapply x_conseq; [apply (H true vs mi (ViewNumber s0) (nsign g0) s0); split; [exact (H0 Hk)|reflexivity]|].
-    cbn. intros _ s n [P T] _. rewrite nsign_app, (nosign_nsign _ T), Nat.add_0_r. apply P.
-  - eapply x_conseq; [apply (H false vs mi 0 0%nat s0); exact I|].
+  - eapply x_conseq; [apply (H true vs mi (ViewNumber s0) (nsign g0) (signed_commit g0) s0); split; [exact (H0 Hk)|reflexivity]|].
+    cbn. intros _ s n [P T] _. rewrite nsign_app, (nosign_nsign _ T), Nat.add_0_r, (signed_commit_app _ _ (nosign_nsign _ T)). apply P.
+  - eapply x_conseq; [apply (H false vs mi 0 0%nat None s0); exact I|].
     cbn. intros _ s n _ Hk2. exfalso. apply Hk. apply (KS_app _ _ _ Hk2).
 Qed.
 (* ... called inside a symbolic execution: its frame, and the view it leaves untouched *)
@@ -109,12 +126,12 @@ Lemma x_k3 {A B} vs mi g0 s0 (x : M A) (f : A -> M B) Q : k3 x -> I3g vs mi g0 s
      hx s1 (f a) (fun b s n2 => Q b s (n1 ++ n2))) -> hx s0 (bind x f) Q.
 Proof.
   intros H H0 Hf. destruct (KS_dec mi g0) as [Hk|Hk].
-  - eapply x_call; [apply (H true vs mi (ViewNumber s0) (nsign g0) s0); split; [exact (H0 Hk)|reflexivity]|].
+  - eapply x_call; [apply (H true vs mi (ViewNumber s0) (nsign g0) (signed_commit g0) s0); split; [exact (H0 Hk)|reflexivity]|].
     intros a s1 n1 [P T]. apply Hf.
-    + intros _. rewrite nsign_app, (nosign_nsign _ T), Nat.add_0_r. apply P.
+    + intros _. rewrite nsign_app, (nosign_nsign _ T), Nat.add_0_r, (signed_commit_app _ _ (nosign_nsign _ T)). apply P.
     + intros _. apply P.
     + apply (nosign_nsign _ T).
-  - eapply x_call; [apply (H false vs mi 0 0%nat s0); exact I|].
+  - eapply x_call; [apply (H false vs mi 0 0%nat None s0); exact I|].
     intros a s1 n1 [_ T]. apply Hf.
     + intros Hk2. exfalso. apply Hk. apply (KS_app _ _ _ Hk2).
     + intros Hk2. contradiction.
@@ -195,27 +212,27 @@ Lemma t_ask_recv m : k3 (ask_recv m). Proof. unfold ask_recv. k3_go. Qed.
 End Auto3.
 
 (* ---------------- level 0: the functions that touch the header or the Commit table ---------------- *)
-Lemma i3_header vs mi k s s' :
-  I3 vs mi k s -> Validators s' = Validators s -> MyIndex s' = MyIndex s -> ViewNumber s' = ViewNumber s -> MyKey s' = MyKey s ->
+Lemma i3_header vs mi k oc s s' :
+  I3 vs mi k oc s -> Validators s' = Validators s -> MyIndex s' = MyIndex s -> ViewNumber s' = ViewNumber s -> MyKey s' = MyKey s ->
   CommitPayloads s' = CommitPayloads s ->
-  (forall b, header s = Some b -> exists b', header s' = Some b' /\ block_hash b' = block_hash b) -> I3 vs mi k s'.
+  (forall b, header s = Some b -> exists b', header s' = Some b' /\ block_hash b' = block_hash b) -> I3 vs mi k oc s'.
 Proof.
   intros (A1 & A2 & A3 & A4 & A5) E1 E2 E3 E4 E5 Hh. unfold I3. rewrite E1, E2, ?E3, E4.
   split; [exact A1|split; [exact A2|split; [exact A3|split; [exact A4|]]]]. intros Hs. destruct (A5 Hs) as [P1 P2 P4].
   constructor; unfold own in *; rewrite ?E3, ?E4, ?E5; try assumption.
-  intros Hk. destruct (P2 Hk) as (c & b & C1 & C2 & C3 & C4 & Hb & Hsg). destruct (Hh b Hb) as (b' & Hb' & Eh).
+  intros Hk. destruct (P2 Hk) as (c & b & C0 & C1 & C2 & C3 & C4 & Hb & Hsg). destruct (Hh b Hb) as (b' & Hb' & Eh).
   exists c, b'. repeat (split; [assumption|]). congruence.
 Qed.
-Lemma i3_unsigned vs mi k s s' : I3 vs mi k s -> (zlen vs <= 65536 -> k = 0%nat) -> Same3z s s' -> I3 vs mi k s'.
+Lemma i3_unsigned vs mi k oc s s' : I3 vs mi k oc s -> (zlen vs <= 65536 -> k = 0%nat) -> Same3z s s' -> I3 vs mi k oc s'.
 Proof.
   intros (A1 & A2 & A3 & A4 & A5) Hk (E1 & E2 & E3 & E4). unfold I3. rewrite E1, E2, ?E3, E4.
   split; [exact A1|split; [exact A2|split; [exact A3|split; [exact A4|]]]]. intros Hs. rewrite (Hk Hs).
   constructor; [reflexivity|intros H; exfalso; apply H; reflexivity|auto].
 Qed.
-Lemma i3_k0 vs mi k s : I3 vs mi k s -> own mi s = None -> zlen vs <= 65536 -> k = 0%nat.
-Proof. intros (_ & _ & _ & _ & A5) Ho Hs. apply (o1 _ _ _ (A5 Hs) Ho). Qed.
-Lemma i3_commit_other vs mi k s l i v : I3 vs mi k s -> set_chk (CommitPayloads s) (Z.to_nat i) v = Some l -> 0 <= i -> i <> mi ->
-  I3 vs mi k (s <| CommitPayloads := l |>).
+Lemma i3_k0 vs mi k oc s : I3 vs mi k oc s -> own mi s = None -> zlen vs <= 65536 -> k = 0%nat.
+Proof. intros (_ & _ & _ & _ & A5) Ho Hs. apply (o1 _ _ _ _ (A5 Hs) Ho). Qed.
+Lemma i3_commit_other vs mi k oc s l i v : I3 vs mi k oc s -> set_chk (CommitPayloads s) (Z.to_nat i) v = Some l -> 0 <= i -> i <> mi ->
+  I3 vs mi k oc (s <| CommitPayloads := l |>).
 Proof.
   intros (A1 & A2 & A3 & A4 & A5) Hl Hi Hne. unfold I3. cbn [Validators MyIndex ViewNumber MyKey set].
   split; [exact A1|split; [exact A2|split; [exact A3|split; [exact A4|]]]]. intros Hs. destruct (A5 Hs) as [P1 P2 P4].
@@ -233,8 +250,8 @@ Ltac trs4 := rewrite ?app_nil_r; repeat first [ assumption | apply trG_nil | app
 Ltac nosel := match goal with H : _ = Some _ |- NoSign _ ?c => destruct c; try reflexivity; cbn in H; discriminate H end.
 
 (* MakeHeader: builds the header only when there is none; the Commit table is left alone *)
-Lemma mh3_spec on vs mi vn k s0 : I3s on vs mi vn k s0 ->
-  hx s0 (MakeHeader cfg) (fun r s tr => I3s on vs mi vn k s /\ trG NoSign tr /\ CommitPayloads s = CommitPayloads s0 /\
+Lemma mh3_spec on vs mi vn k oc s0 : I3s on vs mi vn k oc s0 ->
+  hx s0 (MakeHeader cfg) (fun r s tr => I3s on vs mi vn k oc s /\ trG NoSign tr /\ CommitPayloads s = CommitPayloads s0 /\
                                         Validators s = Validators s0 /\ (forall b, r = Some b -> header s = Some b)).
 Proof.
   intros H0. unfold MakeHeader. apply x_get. destruct (header s0) as [b0|] eqn:Eh.
@@ -245,20 +262,20 @@ Proof.
   apply x_ask. intros ok c Hc. apply sel_NewBlock in Hc. subst c. destruct ok.
   - apply x_modify. apply x_ret. split; [|split; [trs4|split; [reflexivity|split; [reflexivity|intros b [= <-]; reflexivity]]]].
     destruct on; [|exact I]. destruct H0 as [HI HV]. split; [|exact HV].
-    apply (i3_header _ _ _ s0); try reflexivity; [exact HI|]. intros b Hb. rewrite Eh in Hb. discriminate Hb.
+    apply (i3_header _ _ _ _ s0); try reflexivity; [exact HI|]. intros b Hb. rewrite Eh in Hb. discriminate Hb.
   - apply x_ret. split; [exact H0|split; [trs4|split; [reflexivity|split; [reflexivity|discriminate]]]].
 Qed.
 Lemma t_MakeHeader : k3 (MakeHeader cfg).
-Proof. intros on vs mi vn k s0 H0. eapply x_conseq; [apply (mh3_spec _ _ _ _ _ s0 H0)|]. cbn. intros r s n (A & B & _). auto. Qed.
+Proof. intros on vs mi vn k oc s0 H0. eapply x_conseq; [apply (mh3_spec _ _ _ _ _ _ s0 H0)|]. cbn. intros r s n (A & B & _). auto. Qed.
 Hint Resolve t_MakeHeader : kpdb.
 
 Lemma t_CreateBlock : k3 (CreateBlock cfg).
 Proof.
-  intros on vs mi vn k s0 H0. unfold CreateBlock. apply x_get. destruct (block_set s0); [apply x_ret; split; [exact H0|apply trG_nil]|].
-  eapply x_call; [apply (mh3_spec _ _ _ _ _ s0 H0)|]. intros hb s1 n1 (I1 & T1 & _ & _ & Hh). cbn beta. destruct hb as [b|]; [|apply x_ret; split; [exact I1|trs4]].
+  intros on vs mi vn k oc s0 H0. unfold CreateBlock. apply x_get. destruct (block_set s0); [apply x_ret; split; [exact H0|apply trG_nil]|].
+  eapply x_call; [apply (mh3_spec _ _ _ _ _ _ s0 H0)|]. intros hb s1 n1 (I1 & T1 & _ & _ & Hh). cbn beta. destruct hb as [b|]; [|apply x_ret; split; [exact I1|trs4]].
   apply x_get. cbv zeta. apply x_modify. apply x_ret. split; [|trs4].
   destruct on; [|exact I]. destruct I1 as [HI HV]. split; [|exact HV].
-  apply (i3_header _ _ _ s1); try reflexivity; [exact HI|]. intros b0 Hb0. rewrite (Hh b eq_refl) in Hb0. injection Hb0 as <-.
+  apply (i3_header _ _ _ _ s1); try reflexivity; [exact HI|]. intros b0 Hb0. rewrite (Hh b eq_refl) in Hb0. injection Hb0 as <-.
   eexists. split; reflexivity.
 Qed.
 Hint Resolve t_CreateBlock : kpdb.
@@ -266,11 +283,11 @@ Lemma t_checkCommit : k3 (checkCommit cfg). Proof. unfold checkCommit. k3_go. Qe
 Hint Resolve t_checkCommit : kpdb.
 
 (* the re-verification of stored commits never removes the commit the node signed: it still verifies *)
-Lemma own_verifies vs mi k s c b pub : I3 vs mi (S k) s -> zlen vs <= 65536 -> own mi s = Some c ->
+Lemma own_verifies vs mi k oc s c b pub : I3 vs mi (S k) oc s -> zlen vs <= 65536 -> own mi s = Some c ->
   header s = Some b -> nth_chk (Validators s) (Z.to_nat (p_idx c)) = Some pub -> block_verify pub b (commit_sig c) = true.
 Proof.
   intros (A1 & A2 & A3 & A4 & A5) Hs Ho Hb Hp. destruct (A5 Hs) as [_ P2 _].
-  destruct (P2 ltac:(discriminate)) as (c' & b' & C1 & C2 & C3 & C4 & Hb' & Hsg). rewrite Ho in C1. injection C1 as <-.
+  destruct (P2 ltac:(discriminate)) as (c' & b' & C0 & C1 & C2 & C3 & C4 & Hb' & Hsg). rewrite Ho in C1. injection C1 as <-.
   rewrite Hb in Hb'. injection Hb' as <-.
   assert (Hmi : 0 <= mi). { unfold own, slot in Ho. destruct (mi <? 0) eqn:E; [discriminate Ho|apply Z.ltb_ge in E; exact E]. }
   rewrite C2, A1, (A4 Hmi) in Hp. injection Hp as <-.
@@ -278,19 +295,19 @@ Proof.
 Qed.
 Lemma t_verifyCommits : k3 (verifyCommitPayloadsAgainstHeader cfg).
 Proof.
-  intros on vs mi vn k. unfold verifyCommitPayloadsAgainstHeader. apply kp_get_bind_u. intros s. apply kp_forM. intros i s1 H1.
+  intros on vs mi vn k oc. unfold verifyCommitPayloadsAgainstHeader. apply kp_get_bind_u. intros s. apply kp_forM. intros i s1 H1.
   apply x_get. apply x_tget. intros m Hi Hm. destruct m as [p|]; [|apply x_ret; split; [exact H1|apply trG_nil]].
   destruct (p_view p =? ViewNumber s1) eqn:Ev; [|apply x_ret; split; [exact H1|apply trG_nil]]. apply Z.eqb_eq in Ev.
-  eapply x_call; [apply (mh3_spec _ _ _ _ _ s1 H1)|]. intros hb s2 n2 (I2 & T2 & C2 & V2 & Hh). cbn beta.
+  eapply x_call; [apply (mh3_spec _ _ _ _ _ _ s1 H1)|]. intros hb s2 n2 (I2 & T2 & C2 & V2 & Hh). cbn beta.
   destruct hb as [b|]; [|apply x_ret; split; [exact I2|trs4]]. specialize (Hh b eq_refl).
   apply x_get. apply x_tget. intros pub Hi2 Hpub. destruct (block_verify pub b (commit_sig p)) eqn:Ebv; [apply x_ret; split; [exact I2|trs4]|].
   apply x_tset. intros l Hi3 Hl. apply x_modify_last. split; [|trs4].
   destruct on; [|exact I]. destruct I2 as [HI HV]. destruct H1 as [HI1 HV1]. split; [|exact HV].
-  destruct (Z.eq_dec (Z.of_nat i) mi) as [E|Hne]; [|apply (i3_commit_other _ _ _ s2 l (Z.of_nat i) None HI Hl Hi3 Hne)].
-  destruct (Z_le_dec (zlen vs) 65536) as [Hs|Hs]; [|apply (i3_unsigned _ _ _ s2); [exact HI|intros X; contradiction|repeat split]].
-  destruct k as [|k']; [apply (i3_unsigned _ _ _ s2); [exact HI|reflexivity|repeat split]|]. exfalso.
+  destruct (Z.eq_dec (Z.of_nat i) mi) as [E|Hne]; [|apply (i3_commit_other _ _ _ _ s2 l (Z.of_nat i) None HI Hl Hi3 Hne)].
+  destruct (Z_le_dec (zlen vs) 65536) as [Hs|Hs]; [|apply (i3_unsigned _ _ _ _ s2); [exact HI|intros X; contradiction|repeat split]].
+  destruct k as [|k']; [apply (i3_unsigned _ _ _ _ s2); [exact HI|reflexivity|repeat split]|]. exfalso.
   assert (Ho : own mi s2 = Some p). { unfold own. rewrite C2, <- E. apply (slot_nth _ _ _ Hi Hm). }
-  rewrite (own_verifies vs mi k' s2 p b pub HI Hs Ho Hh Hpub) in Ebv. discriminate Ebv.
+  rewrite (own_verifies vs mi k' oc s2 p b pub HI Hs Ho Hh Hpub) in Ebv. discriminate Ebv.
 Qed.
 Hint Resolve t_verifyCommits : kpdb.
 Lemma t_updateExistingPayloads m : k3 (updateExistingPayloads cfg m). Proof. unfold updateExistingPayloads. k3_go. Qed.
@@ -299,28 +316,28 @@ Hint Resolve t_updateExistingPayloads : kpdb.
 (* a received Commit is stored only in an empty slot, and only what was just stored is removed again *)
 Lemma t_onCommit msg : k3 (onCommit cfg msg).
 Proof.
-  intros on vs mi vn k s0 H0. unfold onCommit. apply x_get. apply x_tget. intros ex Hi Hex.
+  intros on vs mi vn k oc s0 H0. unfold onCommit. apply x_get. apply x_tget. intros ex Hi Hex.
   destruct ex as [e|]; cbn [isSome]; [apply x_ret; split; [exact H0|apply trG_nil]|].
   apply x_tset. intros l _ Hl. apply x_modify.
   match goal with |- hx ?st _ _ => set (s1 := st) end.
   (* from here on: either another validator's slot, or nothing has been signed *)
   assert (Hk : on = true -> p_idx msg <> mi \/ (zlen vs <= 65536 -> k = 0%nat)).
   { intros ->. destruct H0 as [HI _]. destruct (Z.eq_dec (p_idx msg) mi) as [E|Hne]; [right|left; exact Hne].
-    apply (i3_k0 _ _ _ _ HI). unfold own. rewrite <- E. apply (slot_nth _ _ _ Hi Hex). }
-  assert (Hset : forall s l' v, I3s on vs mi vn k s -> set_chk (CommitPayloads s) (Z.to_nat (p_idx msg)) v = Some l' ->
-                               I3s on vs mi vn k (s <| CommitPayloads := l' |>)).
+    apply (i3_k0 _ _ _ _ _ HI). unfold own. rewrite <- E. apply (slot_nth _ _ _ Hi Hex). }
+  assert (Hset : forall s l' v, I3s on vs mi vn k oc s -> set_chk (CommitPayloads s) (Z.to_nat (p_idx msg)) v = Some l' ->
+                               I3s on vs mi vn k oc (s <| CommitPayloads := l' |>)).
   { intros s l' v Hs Hl'. destruct on; [|exact I]. destruct Hs as [HI HV]. split; [|exact HV].
-    destruct (Hk eq_refl) as [Hne|Hz]; [apply (i3_commit_other _ _ _ s l' (p_idx msg) v HI Hl' Hi Hne)|].
-    apply (i3_unsigned _ _ _ s); [exact HI|exact Hz|repeat split]. }
-  assert (I1 : I3s on vs mi vn k s1) by (apply (Hset s0 l _ H0 Hl)).
+    destruct (Hk eq_refl) as [Hne|Hz]; [apply (i3_commit_other _ _ _ _ s l' (p_idx msg) v HI Hl' Hi Hne)|].
+    apply (i3_unsigned _ _ _ _ s); [exact HI|exact Hz|repeat split]. }
+  assert (I1 : I3s on vs mi vn k oc s1) by (apply (Hset s0 l _ H0 Hl)).
   destruct (negb _); [apply x_ret; split; [exact I1|apply trG_nil]|].
   apply x_ask. intros ok c Hc. assert (Gc : NoSign s1 c) by nosel. destruct ok; cbn [negb].
   2:{ apply x_get. apply x_tset. intros l2 _ Hl2. apply x_modify_last. split; [apply (Hset s1 l2 _ I1 Hl2)|trs4]. }
-  eapply x_kp; [apply (t_extendTimer cfg 4 on vs mi vn k)|exact I1|]. intros [] s2 n2 I2 T2.
-  eapply x_call; [apply (mh3_spec _ _ _ _ _ s2 I2)|]. intros hb s3 n3 (I3' & T3 & _ & _ & _). cbn beta.
+  eapply x_kp; [apply (t_extendTimer cfg 4 on vs mi vn k oc)|exact I1|]. intros [] s2 n2 I2 T2.
+  eapply x_call; [apply (mh3_spec _ _ _ _ _ _ s2 I2)|]. intros hb s3 n3 (I3' & T3 & _ & _ & _). cbn beta.
   destruct hb as [b|]; [|apply x_ret; split; [exact I3'|trs4]].
   apply x_get. apply x_tget. intros pub _ _. destruct (block_verify pub b (commit_sig msg)).
-  - eapply x_conseq; [apply (t_checkCommit on vs mi vn k s3 I3')|]. cbn. intros _ s n [A B]. split; [exact A|trs4].
+  - eapply x_conseq; [apply (t_checkCommit on vs mi vn k oc s3 I3')|]. cbn. intros _ s n [A B]. split; [exact A|trs4].
   - apply x_tset. intros l3 _ Hl3. apply x_modify_last. split; [apply (Hset s3 l3 _ I3' Hl3)|trs4].
 Qed.
 End Manual3.
@@ -328,8 +345,8 @@ End Manual3.
 (* ---------------- level 1: the signature ---------------- *)
 Lemma u16_small x : 0 <= x < 65536 -> u16 x = x.
 Proof. intros H. unfold u16. apply Z.mod_small. exact H. Qed.
-Lemma i3_commit_same vs mi k s l : I3 vs mi k s -> 0 <= mi -> set_chk (CommitPayloads s) (Z.to_nat mi) (own mi s) = Some l ->
-  I3 vs mi k (s <| CommitPayloads := l |>).
+Lemma i3_commit_same vs mi k oc s l : I3 vs mi k oc s -> 0 <= mi -> set_chk (CommitPayloads s) (Z.to_nat mi) (own mi s) = Some l ->
+  I3 vs mi k oc (s <| CommitPayloads := l |>).
 Proof.
   intros (A1 & A2 & A3 & A4 & A5) Hi Hl. unfold I3. cbn [Validators MyIndex ViewNumber MyKey set].
   split; [exact A1|split; [exact A2|split; [exact A3|split; [exact A4|]]]]. intros Hs. destruct (A5 Hs) as [P1 P2 P4].
@@ -350,10 +367,10 @@ Lemma x_mh3 {B} vs mi g0 s0 (f : option blockobj -> M B) Q : I3g vs mi g0 s0 ->
   hx s0 (bind (MakeHeader cfg) f) Q.
 Proof.
   intros H0 Hf. destruct (KS_dec mi g0) as [Hk|Hk].
-  - eapply x_call; [apply (mh3_spec cfg true vs mi (ViewNumber s0) (nsign g0) s0); split; [exact (H0 Hk)|reflexivity]|].
+  - eapply x_call; [apply (mh3_spec cfg true vs mi (ViewNumber s0) (nsign g0) (signed_commit g0) s0); split; [exact (H0 Hk)|reflexivity]|].
     intros r s1 n1 (P & T & C1 & _ & Hh). apply Hf; [|apply (nosign_nsign _ T)|exact C1|exact Hh].
-    intros _. rewrite nsign_app, (nosign_nsign _ T), Nat.add_0_r. apply P.
-  - eapply x_call; [apply (mh3_spec cfg false vs mi 0 0%nat s0); exact I|].
+    intros _. rewrite nsign_app, (nosign_nsign _ T), Nat.add_0_r, (signed_commit_app _ _ (nosign_nsign _ T)). apply P.
+  - eapply x_call; [apply (mh3_spec cfg false vs mi 0 0%nat None s0); exact I|].
     intros r s1 n1 (_ & T & C1 & _ & Hh). apply Hf; [|apply (nosign_nsign _ T)|exact C1|exact Hh].
     intros Hk2. exfalso. apply Hk. apply (KS_app _ _ _ Hk2).
 Qed.
@@ -365,7 +382,7 @@ Proof.
   - apply x_ret_bind. apply x_get. apply x_tset. intros l _ Hl. apply x_modify.
     eapply x_conseq; [apply (kq_of_k3 _ (t_broadcast m) vs mi g0)|cbn; intros _ s n P; exact P].
     intros Hks. pose proof (H0 Hks) as HI. assert (Emi : MyIndex s0 = mi) by apply HI. rewrite Emi in *.
-    apply (i3_commit_same _ _ _ s0 l HI Hi). unfold own. rewrite (slot_nth _ _ _ Hi Hown). exact Hl.
+    apply (i3_commit_same _ _ _ _ s0 l HI Hi). unfold own. rewrite (slot_nth _ _ _ Hi Hown). exact Hl.
   - apply x_assoc. apply (x_mh3 vs mi g0 s0 _ _ H0). intros hb s1 n1 I1 N1 C1 Hh. destruct hb as [b|].
     2:{ apply x_ret_bind. apply x_ret. rewrite app_nil_r. exact I1. }
     specialize (Hh b eq_refl). xs.
@@ -381,11 +398,14 @@ Proof.
     assert (Ens : nsign (g0 ++ n1 ++ [(s1, c)]) = S (nsign g0)).
     { rewrite !nsign_app, N1, Esig. cbn. lia. }
     rewrite Ens. destruct HI as (A1 & A2 & A3 & A4 & A5). destruct HI0 as (B1 & B2 & B3 & B4 & B5).
+    remember (signed_commit (g0 ++ n1 ++ [(s1, c)])) as oc eqn:Eoc.
     unfold I3, s3. cbn [Validators MyIndex ViewNumber MyKey set].
     split; [exact A1|split; [exact A2|split; [exact A3|split; [exact A4|]]]]. intros Hs.
     assert (Hn0 : nsign g0 = 0%nat).
-    { apply (o1 _ _ _ (B5 Hs)). unfold own. rewrite <- B2. apply (slot_nth _ _ _ Hi Hown). }
+    { apply (o1 _ _ _ _ (B5 Hs)). unfold own. rewrite <- B2. apply (slot_nth _ _ _ Hi Hown). }
     rewrite Hn0.
+    assert (Eoc' : oc = Some m).
+    { rewrite Eoc, Esig, app_assoc. apply signed_commit_first. rewrite nsign_app, Hn0, N1. reflexivity. }
     assert (Hmi : 0 <= mi < 65536).
     { rewrite <- A2. split; [assumption|]. pose proof (nth_chk_lt _ _ _ (A4 ltac:(rewrite <- A2; assumption))) as Hlt.
       unfold zlen in Hs. rewrite A2. lia. }
@@ -393,7 +413,7 @@ Proof.
     { unfold own, s3. cbn [CommitPayloads set]. rewrite <- A2. eapply slot_set_same; [exact Hl|exact Hi0]. }
     fold s3. constructor.
     + intros Hnone. rewrite Eown in Hnone. discriminate Hnone.
-    + intros _. exists m. eexists. split; [exact Eown|]. unfold m, mk_payload, s3. cbn.
+    + intros _. exists m. eexists. split; [exact Eoc'|]. split; [exact Eown|]. unfold m, mk_payload, s3. cbn.
       rewrite A2, (u16_small _ Hmi). repeat split; reflexivity.
     + lia.
 Qed.
